@@ -29,7 +29,16 @@ C03 == {[calls |-> <<a, b>>, rel |-> r] : a \in C03Calls, b \in C03Calls, r \in 
 Triple(b) == <<b, b, b>>
 C04First  == Variants({"Rpc", "QC", "CorrStream", "Mcast", "Ucast"}, {"FFF", "LLL", "SSS", "HHH", "RRR", "GGG", "EEE", "NNN"}, {0})
 C04Second == Variants({"Rpc", "QC", "CorrStream", "Mcast", "Ucast"}, {"FFF", "LLL"}, {0, 1})
+\* a handler that released early releases AGAIN (by returning, explicitly, from helper
+\* goroutines) after the next handler has started and while that one still holds the
+\* connection: the third request must not start ("staged": the stragglers are released
+\* one call at a time with an observation window in between)
+C04Staged == {[calls |-> <<a, b, c>>, rel |-> "staged"] :
+                 a \in Variants({"Rpc", "QC", "CorrStream", "Mcast"}, {"SSS", "RRR", "GGG"}, {0}),
+                 b \in Variants({"Rpc", "QC", "Mcast"}, {"HHH"}, {0}),
+                 c \in Variants({"Rpc", "Ucast"}, {"FFF"}, {0})}
 C04 == {[calls |-> <<a, b>>, rel |-> "fifo"] : a \in C04First, b \in C04Second}
+       \cup C04Staged
        \cup (IF Len3 THEN {[calls |-> <<a, b, c>>, rel |-> "lifo"] :
                               a \in Variants({"QC", "Ucast"}, {"HHH", "NNN", "GGG"}, {0}),
                               b \in Variants({"Rpc", "Mcast", "CorrStream"}, {"HHH", "RRR", "FFF"}, {0, 1}),
